@@ -67,6 +67,27 @@ type PkgContracts struct {
 	Closed   map[string]bool
 	Defines  map[string]*Define
 	Pure     map[string]bool // package-level function variables assumed pure and non-nil
+	Lemmas   []*Lemma
+}
+
+// Lemma is a proof obligation over the composition of real functions: the
+// named functions are symbolically executed (inlined) in sequence.
+type Lemma struct {
+	Name    string
+	PkgPath string
+	Props   []string
+	Steps   []LemmaStep
+	File    string
+	Line    int
+}
+
+type LemmaStep struct {
+	Kind   string // forall | let | requires | ensures
+	Names  []string
+	Text   string
+	Expr   ast.Expr
+	Clause *Clause
+	Line   int
 }
 
 // Define is a spec-level macro: define name(a,b): expr
@@ -113,6 +134,7 @@ func ParseContracts(dir, pkgPath string) (*PkgContracts, error) {
 	}
 	pc := &PkgContracts{PkgPath: pkgPath, Dir: dir, File: file, Funcs: map[string]*FuncContract{}, TypeInvs: map[string][]*Clause{}, TypeAssumes: map[string][]*Clause{}, Ghosts: map[string]*GhostFunc{}, Closed: map[string]bool{}, Defines: map[string]*Define{}, Pure: map[string]bool{}}
 	var cur *FuncContract
+	var curLemma *Lemma
 	lines := strings.Split(string(data), "\n")
 	// join continuation lines: a line "//@ ..." ending with " \" continues
 	type ln struct {
@@ -156,7 +178,36 @@ func ParseContracts(dir, pkgPath string) (*PkgContracts, error) {
 		}
 		kw, props, rest := m[1], m[2], strings.TrimSpace(m[4])
 		switch kw {
+		case "lemma":
+			lm := &Lemma{Name: rest, PkgPath: pkgPath, File: file, Line: l.no, Props: parseProps(props)}
+			pc.Lemmas = append(pc.Lemmas, lm)
+			curLemma = lm
+			cur = nil
+		case "forall":
+			if curLemma == nil {
+				return nil, fmt.Errorf("%s:%d: forall outside lemma", file, l.no)
+			}
+			f := strings.Fields(rest)
+			if len(f) < 2 {
+				return nil, fmt.Errorf("%s:%d: forall <name> <type>", file, l.no)
+			}
+			curLemma.Steps = append(curLemma.Steps, LemmaStep{Kind: "forall", Names: []string{f[0]}, Text: strings.TrimSpace(rest[len(f[0]):]), Line: l.no})
+		case "let":
+			if curLemma == nil {
+				return nil, fmt.Errorf("%s:%d: let outside lemma", file, l.no)
+			}
+			i := strings.Index(rest, "=")
+			var names []string
+			for _, n := range strings.Split(rest[:i], ",") {
+				names = append(names, strings.TrimSpace(n))
+			}
+			e, err := parser.ParseExpr(strings.TrimSpace(rest[i+1:]))
+			if err != nil {
+				return nil, fmt.Errorf("%s:%d: %v", file, l.no, err)
+			}
+			curLemma.Steps = append(curLemma.Steps, LemmaStep{Kind: "let", Names: names, Expr: e, Text: rest, Line: l.no})
 		case "func", "iface":
+			curLemma = nil
 			key := rest
 			if i := strings.Index(key, " //"); i >= 0 {
 				key = strings.TrimSpace(key[:i])
@@ -168,10 +219,24 @@ func ParseContracts(dir, pkgPath string) (*PkgContracts, error) {
 			pc.Funcs[key] = cur
 			pc.Order = append(pc.Order, key)
 		case "props":
+			if cur == nil && curLemma != nil {
+				curLemma.Props = append(curLemma.Props, strings.Fields(rest)...)
+			}
 			if cur != nil {
 				cur.Props = append(cur.Props, strings.Fields(rest)...)
 			}
 		case "requires", "ensures", "acquires", "releases":
+			if cur == nil && curLemma != nil && (kw == "requires" || kw == "ensures") {
+				c, err := mkClause(kw, props, rest, l.no)
+				if err != nil {
+					return nil, err
+				}
+				if len(c.Props) == 0 {
+					c.Props = curLemma.Props
+				}
+				curLemma.Steps = append(curLemma.Steps, LemmaStep{Kind: kw, Clause: c, Line: l.no})
+				break
+			}
 			if cur == nil {
 				return nil, fmt.Errorf("%s:%d: %s outside func", file, l.no, kw)
 			}
